@@ -4,6 +4,7 @@
 set -u
 ROOT="$(cd "$(dirname "$0")" && pwd)"
 export CARGO_NET_OFFLINE=true
+export CARGO_TARGET_DIR="$ROOT/target"
 mkdir -p "$ROOT/target" "$ROOT/evidence"
 if [ -f "$ROOT/shim/clock.c" ]; then
   gcc -O2 -shared -fPIC -o "$ROOT/shim/libverifclock.so" "$ROOT/shim/clock.c" -ldl || echo "WARNING: clock shim did not build"
